@@ -22,7 +22,7 @@ import (
 // transactions must never become visible.
 
 func init() {
-	register(&simcore.Check{ID: "C13", Bubble: true, Liveness: true, Body: c13Body, AltBody: c13bBody, AltPct: 15})
+	register(&simcore.Check{ID: "C13", Bubble: true, Liveness: true, Body: c13Body, AltBody: c13AltBody, AltPct: 20})
 }
 
 type c13Stmt struct {
